@@ -622,6 +622,58 @@ def _attr_may_change(e, stmts):
     return False
 
 
+def inline_unknown_closures(fn, rel, qual, tb):
+    """A nested function that the reference tree does not have and whose body is one `return E` is inlined at its call sites in
+    the enclosing function (positional arguments that are names, attributes, subscripts or constants; each parameter used at
+    most once in E unless the argument is a plain name / attribute).  A closure reads its free variables when it is called, so
+    the inlined expression is evaluated with the same values at the same place."""
+    closures = {}
+    for st in list(fn.body):
+        if isinstance(st, ast.FunctionDef) and '%s::%s.%s' % (rel, qual, st.name) not in tb:
+            body = [b for b in st.body if not (isinstance(b, ast.Expr) and isinstance(b.value, ast.Constant))]
+            a = st.args
+            if len(body) == 1 and isinstance(body[0], ast.Return) and body[0].value is not None \
+                    and not a.vararg and not a.kwarg and not a.kwonlyargs and not a.defaults:
+                closures[st.name] = (st, [x.arg for x in a.posonlyargs + a.args], body[0].value)
+    if not closures:
+        return []
+    used, bad = [], set()
+    for n in ast.walk(fn):
+        if isinstance(n, ast.Name) and n.id in closures and isinstance(n.ctx, ast.Load):
+            pass
+
+    class T(ast.NodeTransformer):
+        def visit_FunctionDef(self, n):
+            if n is fn:
+                self.generic_visit(n)
+            return n
+
+        def visit_Call(self, n):
+            self.generic_visit(n)
+            if isinstance(n.func, ast.Name) and n.func.id in closures:
+                st, ps, expr = closures[n.func.id]
+                simple = all(isinstance(a, (ast.Name, ast.Constant, ast.Attribute, ast.Subscript)) for a in n.args)
+                if n.keywords or len(n.args) != len(ps) or not simple:
+                    bad.add(n.func.id)
+                    return n
+                m = dict(zip(ps, n.args))
+
+                class S(ast.NodeTransformer):
+                    def visit_Name(self, x):
+                        if x.id in m and isinstance(x.ctx, ast.Load):
+                            return copy.deepcopy(m[x.id])
+                        return x
+                used.append(n.func.id)
+                return ast.copy_location(S().visit(copy.deepcopy(expr)), n)
+            return n
+    T().visit(fn)
+    # the definitions go away when every use was inlined (a closure that is also passed around as a value stays)
+    still = {n.id for n in ast.walk(fn) if isinstance(n, ast.Name) and n.id in closures and isinstance(n.ctx, ast.Load)}
+    fn.body = [st for st in fn.body if not (isinstance(st, ast.FunctionDef) and st.name in closures and st.name not in still and st.name not in bad and st.name in used)]
+    ast.fix_missing_locations(fn)
+    return sorted(set(used))
+
+
 def inline_unknown_helpers(tree, rel, tb):
     """A module-level function that the reference tree does not have and whose body is one `return E` with E pure is inlined at
     its call sites (arguments that are plain names / constants / attributes, each parameter used at most as often as that is
@@ -689,6 +741,9 @@ def normalise(rel, tree, kwnames=frozenset()):
         if pm:
             applied.append((qual, dict(pm)))
         known = {d for d, k, x in ref['locals']}
+        cl = inline_unknown_closures(fn, rel, qual, tb)
+        if cl:
+            applied.append((qual, {c: '(inlined local closure)' for c in cl}))
         split_unknown_tuple_assigns(fn, known, {x for d, k, x in ref['locals']})
         merge_forwarded_results(fn, known, {x for d, k, x in ref['locals']})
         en = desugar_unknown_enumerate(fn, known)
